@@ -764,15 +764,7 @@ def report(run, stream, bad, designs, outs):
 
 def run_streams(run, tier, seed):
     quick = tier == "quick"
-    # the theorems of Props/C01B.v count as obligations of C01 as well
-    names, current = core.props_obligations("C01B")
-    run.coverage["theorems"] = list(run.coverage.get("theorems", [])) + names
-    run.coverage["obligations"] = run.coverage.get("obligations", 0) + len(names)
-    if getattr(run, "build_ok", False) and current:
-        run.coverage["discharged"] = run.coverage.get("discharged", 0) + len(names)
-    else:
-        run.build_ok = False
-        run.build_log = getattr(run, "build_log", "") + "\nProps/C01B.vo is missing or older than its source"
+    # the theorems of Props/C01B.v are counted as obligations of C01 by core.props_obligations (Props/C01?.v)
     # corpus
     cs = corpus()
     outs, bad = evaluate(cs, "bcorpus")
